@@ -920,7 +920,9 @@ impl<'a> Sim<'a> {
                 match r {
                     Ok(Ok(engine)) => {
                         self.engines[*e] = Some(EngineSlot { eng: Eng::Owned(engine), vs_id: new_ids, voices: new_voices, model, twin, heavy, private_arcs });
-                        self.check_model(*e, "C03.settings-model")?;
+                        if self.prop != Prop::C02 {
+                            self.check_model(*e, "C03.settings-model")?;
+                        }
                         Ok(())
                     }
                     Ok(Err(e)) => Err(Stop::Harness(HarnessError(format!("engine over voices replaced in place refused: {}", e)))),
